@@ -137,3 +137,9 @@ def interleave(sched: List[bool], h: int) -> bool:
     except Exception:  # noqa: BLE001
         ok = False
     return fin(M, ok, sched=sched, h=h)
+
+
+def probe():
+    st = pj.gen_stream(1, pj.make_options(1))
+    st.flow, st.enroll, st.flow.to_stream_frame  # noqa: B018
+    len(st.flow)
